@@ -523,7 +523,8 @@ class SynthObject(gpp.UGenParameter, metaclass=MetaSynthObject):
     def _perform_dead_code_elimination(self):
         if not self._descendants:
             # for input in self._antecedents:  # ?
-            for input in self.inputs:
+            for i in range(len(self.inputs)):
+                input = self.inputs[i]  # _replace_ugen may change self.inputs.
                 if isinstance(input, UGen) and input._descendants\
                 and self in input._descendants:
                     input._descendants.remove(self)
